@@ -8,6 +8,7 @@ import (
 	"path/filepath"
 	"runtime"
 	"runtime/debug"
+	"runtime/pprof"
 	"sort"
 	"strings"
 	"time"
@@ -195,9 +196,16 @@ func main() {
 	minBudget := flag.Float64("minbudget", 20, "minimisation wall-clock budget in seconds")
 	regress := flag.String("regress", "", "directory of regression plans (run first by worker 0)")
 	flag.StringVar(&raceLogPrefix, "racelog", "", "prefix of the race detector's log files (GORACE log_path)")
+	cpuProf := flag.String("cpuprofile", "", "write a CPU profile of this process (development aid)")
 	dumpPlan := flag.Int("dumpplan", -1, "write the plan of run index N to -out and exit")
 	outPath := flag.String("out", "", "output path for -dumpplan")
 	flag.Parse()
+	if *cpuProf != "" {
+		if f, err := os.Create(*cpuProf); err == nil {
+			pprof.StartCPUProfile(f)
+			defer pprof.StopCPUProfile()
+		}
+	}
 
 	siteHits = make([]int64, simrt.NSites+1)
 	initWorlds()
@@ -213,7 +221,9 @@ func main() {
 				setupProcess(rp.Property, base)
 			}
 		}
-		os.Exit(doReplay(*replay))
+		code := doReplay(*replay)
+		pprof.StopCPUProfile()
+		os.Exit(code)
 	}
 	if *dumpPlan < 0 {
 		setupProcess(*prop, *logPath)
